@@ -59,7 +59,7 @@ type Plan53 struct {
 	Ops         []Op53 `json:"ops"`
 }
 
-var forge53 = []string{"fake-chain", "swap-root", "swap-root-rebuilt", "more-signers", "tamper-header", "tamper-state", "cross-period-sig", "fake-final"}
+var forge53 = []string{"mixup-sig-next", "mixup-sig-next", "mixup-sig-prev", "mixup-header-next", "mixup-signer-next", "fake-chain", "swap-root", "swap-root-rebuilt", "more-signers", "tamper-header", "tamper-state", "cross-period-sig", "fake-final"}
 
 func Gen53(r *simcore.Rand, tier string) any {
 	p := &Plan53{Seed: r.Uint64(), Fork: []string{"", "deneb"}[r.Intn(2)], P0: r.Range(0, 40), Periods: r.Range(2, 12),
@@ -107,6 +107,12 @@ func Gen53(r *simcore.Rand, tier string) any {
 				if r.Bool(0.5) {
 					op.Signers = 512
 					op.Final = true
+				}
+				if strings.HasPrefix(op.Forge, "mixup") {
+					op.Signers, op.Final, op.Comm = 512, true, "honest" // (the committee matching the claimed root)
+					if next > 0 {
+						op.Period = r.Intn(next)
+					}
 				}
 			} else if op.Period == next && op.Signers >= p.Threshold && op.Comm == "honest" && r.Bool(0.8) {
 				next++
@@ -295,7 +301,7 @@ func (w *world53) sign(c *types.SerializedSyncCommittee, h types.Header, sigSlot
 
 // makeUpdate builds an update for period offset off whose attested header at slot
 // start+sub proves nextRoot (and, if final, a finalized header of the same period).
-func (w *world53) makeUpdate(off, sub int, signer *types.SerializedSyncCommittee, nextRoot common.Hash, n int, final bool, seed uint64) *types.LightClientUpdate {
+func (w *world53) makeUpdate(off, sub int, signer *types.SerializedSyncCommittee, nextRoot common.Hash, n int, final bool, seed uint64, sigSlot ...uint64) *types.LightClientUpdate {
 	u := &types.LightClientUpdate{Version: w.p.Fork, NextSyncCommitteeRoot: nextRoot}
 	start := types.SyncPeriodStart(w.absPeriod(off))
 	tree := &sparseTree{leaves: map[uint64]merkle.Value{params.StateIndexNextSyncCommittee(w.p.Fork): merkle.Value(nextRoot)}, seed: seed, tag: "state"}
@@ -310,7 +316,11 @@ func (w *world53) makeUpdate(off, sub int, signer *types.SerializedSyncCommittee
 	if final {
 		u.FinalityBranch = tree.branch(params.StateIndexFinalBlock(w.p.Fork))
 	}
-	u.AttestedHeader = w.sign(signer, att, att.Slot+1, n, seed)
+	ss := att.Slot + 1
+	if len(sigSlot) > 0 {
+		ss = sigSlot[0]
+	}
+	u.AttestedHeader = w.sign(signer, att, ss, n, seed)
 	return u
 }
 
@@ -503,6 +513,37 @@ func (w *world53) doUpdate(i int, op *Op53) {
 		u = f
 		u.AttestedHeader.Signature = g.AttestedHeader.Signature
 		u.AttestedHeader.Header.ParentRoot = g.AttestedHeader.Header.ParentRoot
+		next = w.fake[off+1]
+	case "mixup-sig-next":
+		// period mix-up: header in this period, signature slot in the NEXT period, signed by
+		// the next period's genuine committee (whose signatures the forger got hold of),
+		// proving the forger's committee for the next period
+		if w.fake[off+1] == nil {
+			return
+		}
+		u = w.makeUpdate(off, op.Sub, w.comm[off+1], w.fake[off+1].Root(), op.Signers, op.Final, op.Seed,
+			types.SyncPeriodStart(w.absPeriod(off+1))+uint64(op.Sub%4000))
+		next = w.fake[off+1]
+	case "mixup-sig-prev":
+		// header in this period, signature slot in the PREVIOUS period, signed by that committee
+		if w.comm[off-1] == nil {
+			return
+		}
+		u = w.makeUpdate(off, op.Sub, w.comm[off-1], w.fake[off+1].Root(), op.Signers, op.Final, op.Seed,
+			types.SyncPeriodStart(w.absPeriod(off-1))+uint64(op.Sub))
+		next = w.fake[off+1]
+	case "mixup-header-next":
+		// header in the NEXT period (so the update is filed under it), signature slot in this
+		// period, signed by this period's genuine committee
+		if w.comm[off+2] == nil || w.fake[off+2] == nil {
+			return
+		}
+		u = w.makeUpdate(off+1, op.Sub, w.comm[off], w.fake[off+2].Root(), op.Signers, op.Final, op.Seed,
+			types.SyncPeriodStart(w.absPeriod(off))+uint64(op.Sub))
+		next = w.fake[off+2]
+	case "mixup-signer-next":
+		// all slots in this period, but signed by the next period's genuine committee
+		u = w.makeUpdate(off, op.Sub, w.comm[off+1], w.fake[off+1].Root(), op.Signers, op.Final, op.Seed)
 		next = w.fake[off+1]
 	case "cross-period-sig":
 		// last slot of the period, signed in the first slot of the next period by that
